@@ -40,8 +40,8 @@ def levels(tier):
         [[148], [148], [148, 74]],
     ]
     return [
-        {"name": "n1", "pools": pools, "sparse": True, "n": 1, "alphabet": alpha, "backends": ["file", "memory"], "links_batch": 2},
-        {"name": "n2", "pools": pools, "sparse": True, "n": 2, "alphabet": alpha, "backends": ["file", "memory"], "links_batch": 2},
+        {"name": "n1-all", "pools": pools, "sparse": True, "n": 1, "alphabet": alpha, "backends": ["file", "memory"], "links_batch": 2},
+        {"name": "n2-wide", "pools": pools, "sparse": True, "n": 2, "alphabet": alpha, "backends": ["file", "memory"], "links_batch": 2},
         {"name": "n1-full-bytes", "pools": pools[:3], "sparse": False, "n": 1, "alphabet": alpha, "backends": ["file"], "links_batch": 2},
         {"name": "n3", "pools": pools[:3], "sparse": True, "n": 3, "alphabet": ["page", "links", "we"], "backends": ["file"], "links_batch": 1},
     ]
